@@ -42,6 +42,7 @@ type Archive struct {
 	Raw     []RawMut          `json:"raw,omitempty"`
 	CutTar  int               `json:"cut_tar,omitempty"` // truncate the tar stream at this many 512-blocks before compressing (0 = no)
 	Reader  simkit.ReaderPlan `json:"reader"`
+	Dst     string            `json:"dst,omitempty"` // unpack this archive into another destination (default: the scenario's)
 }
 
 type Scenario struct {
@@ -52,6 +53,7 @@ type Scenario struct {
 	Umask    int       `json:"umask"`
 	Dst      string    `json:"dst"`
 	Allow    []string  `json:"allow,omitempty"`
+	SharedPacker bool  `json:"shared_packer,omitempty"` // one *Packer serves all Unpack calls of the scenario
 	Archives []Archive `json:"archives"`
 }
 
